@@ -95,8 +95,8 @@ CLAIMED = {
     technique="deductive verification: modular contracts + loop invariants over recursive-sum spec functions, z3",
     design="DESIGN.md section 5 C06"),
  "C01": dict(
-    text="Symmetry-expansion kernel of the finite-displacement solver: distribute_fc2 (c/phonopy.c) is symbolically executed from clang's AST on every run; with a ghost map of the rows already filled, the postcondition is that every row i whose representative differs from i holds R^T Phi[rep, perm(j)] R for every j (the rotated copy of the representative row) and that rows of representative atoms and everything outside the target rows are unchanged (frame); all subscripts in range; all sizes, permutations and rotation matrices symbolic. Displacement-direction search (phonopy/harmonic/displacement.py): on every returning path of _get_displacement_one / _get_displacement_two the returned direction(s) together with the site-symmetry images R_i d (x' = R x) the solver will use have a non-zero determinant, for generic integer operations and directions.",
-    note=TRUST + "NOT decided: the least-squares solve of the first-atom rows (numpy.linalg.pinv and its cutoff), phpy_compute_permutation, get_least_displacements bookkeeping, is_minus_displacement. The direction search is executed for two generic operations and two generic directions (the functions treat list elements uniformly and return right behind the guard).",
+    text="Symmetry-expansion kernel of the finite-displacement solver: distribute_fc2 (c/phonopy.c) is symbolically executed from clang's AST on every run; with a ghost map of the rows already filled, the postcondition is that every row i whose representative differs from i holds R^T Phi[rep, perm(j)] R for every j (the rotated copy of the representative row) and that rows of representative atoms and everything outside the target rows are unchanged (frame); all subscripts in range; all sizes, permutations and rotation matrices symbolic. Displacement-direction search (phonopy/harmonic/displacement.py): on every returning path of _get_displacement_one / _get_displacement_two the returned direction(s) together with the site-symmetry images R_i d (x' = R x) the solver will use have a non-zero determinant, for generic integer operations and directions. phpy_compute_permutation (atom matching under a symmetry operation): every assigned rot_atom[j] is within symprec of pos (periodic distance with the code's nint), no atom is assigned twice, the return value is 1 exactly when every j is assigned, and the `while (rot_atom[search_start] >= 0)` scan stays in bounds by a counting argument (three induction lemmas over arrays).",
+    note=TRUST + "NOT decided: the least-squares solve of the first-atom rows (numpy.linalg.pinv and its cutoff), get_least_displacements bookkeeping, is_minus_displacement. The direction search is executed for two generic operations and two generic directions (the functions treat list elements uniformly and return right behind the guard).",
     technique="deductive verification: modular contract with ghost state + loop invariants, z3",
     design="DESIGN.md section 5 C01"),
  "C15": dict(
